@@ -567,7 +567,12 @@ class DefaultParser(Parser):
                 break
             digits.append(context.value(cur))
             context.advance()
-        return int(''.join(map(str, digits)) or 0)
+        try:
+            return int(''.join(map(str, digits)) or 0)
+        except ValueError as err:
+            # e.g. CPython's integer string conversion length limit
+            raise ParseError(
+                f'Invalid subscript near position {context.pos}: {err}') from None
 
     def _read_coords(self, context: ParseContext, /) -> BiCoords:
         """Read (index, subscript) coords starting from the current character,
